@@ -4,6 +4,7 @@ import (
 	"fmt"
 	"go/token"
 	"go/types"
+	"sort"
 	"strings"
 
 	"golang.org/x/tools/go/ssa"
@@ -64,7 +65,7 @@ func payloadReads(fn *ssa.Function, v ssa.Value) map[ssa.Value]bool {
 func c01(r *core.Report) {
 	p := r.P
 	r.Explanation = "Static necessary conditions of 'every swarm delivers exactly what was told, to whom it was told, and the sender keeps its buffers': (BORROW-SEND) in every Tell/Ask implementation, and in everything it calls in the module, no alias of an element of the payload vector is written and none outlives the call (stored in a field, map, global or shared slice, sent on a channel, captured by an unjoined goroutine); copies (append of bytes, copy, VecBytes, string conversion) cut the alias, synchronous hand-down to an inner Tell/Ask or to a hub is a loan; (BORROW-RECV) in every function handed a received message (callbacks passed to an inner Receive/ServeAsk and the handlers they call) no alias of the message payload outlives the callback or is written; (ADDR-PROVENANCE) wherever a message is re-wrapped for the layer above, its source derives from the inbound message's source and not from its destination, and vice versa, and the queue stores src/dst into the matching fields. Byte-identity of delivered payloads over all lengths, contents and interleavings is a runtime claim and is not decided (C09/C10 cover their structural parts)."
-	r.Assumptions = []string{"external callees in the audited no-retain table read their byte arguments during the call and keep no reference; io.Writer/io.Reader implementations honour the io contracts", "the hubs' Deliver returns only after the callback finished (C13-COMMIT)"}
+	r.Assumptions = []string{"external callees in the audited no-retain table read their byte arguments during the call and keep no reference; io.Writer/io.Reader implementations honour the io contracts", "Go channel semantics for the hubs' rendezvous"}
 	r.Trusted = []string{"go/types, go/ssa (x/tools v0.29.0)"}
 	h := resolveHubs(r)
 	if len(r.Failures) > 0 {
@@ -86,6 +87,13 @@ func c01(r *core.Report) {
 		"fmt.Fprintf":                                          "formats", "fmt.Sprintf": "formats", "fmt.Errorf": "formats (error text only)",
 		"github.com/pkg/errors.Errorf": "formats", "log.Println": "formats",
 	}
+
+	// ---- the loan through the hubs is synchronous (what BORROW-* assume when they treat
+	// TellHub/AskHub.Deliver as a loan): same rules as C13, decided here as well
+	r.Rule("C01-LOAN-COMMIT", "hub Deliver returns nil only after the completion wait that follows the rendezvous send", 8)
+	ruleCommit(r, h, "C01-LOAN-COMMIT")
+	r.Rule("C01-LOAN-DONE", "hub Receive/ServeAsk signal completion only after the callback returned", 9)
+	ruleDoneAfterCallback(r, h, "C01-LOAN-DONE")
 
 	// ---- C01-BORROW-SEND
 	r.Rule("C01-BORROW-SEND", "no alias of a Tell/Ask payload element is written or outlives the call", 24)
@@ -202,75 +210,131 @@ func c01(r *core.Report) {
 	// ---- C01-ADDR-PROVENANCE
 	r.Rule("C01-ADDR-PROVENANCE", "re-wrapped messages keep source as source and destination as destination", 10)
 	nProv := 0
+	tellDst := map[*ssa.Parameter]bool{}
+	for _, fn := range ctxMethods(p, "Tell", "Ask") {
+		for i, prm := range fn.Params {
+			if _, isSl := prm.Type().Underlying().(*types.Slice); i < 2 || isSl {
+				continue
+			}
+			tellDst[prm] = true
+			break
+		}
+	}
+	var roles func(v ssa.Value, depth int, out map[string]bool)
+	roles = func(v ssa.Value, depth int, out map[string]bool) {
+		core.BackSlice(v, func(x ssa.Value) bool {
+			if f, base := core.FieldRead(x); f != nil && base != nil {
+				if (f.Name() == "Src" || f.Name() == "Dst") && isMessageType(p, derefType(base.Type())) {
+					out[f.Name()] = true
+					return false
+				}
+				if f.Name() == "localID" || f.Name() == "localAddr" || f.Name() == "local" {
+					out["local"] = true
+					return false
+				}
+			}
+			if c, ok := x.(*ssa.Call); ok {
+				n := core.CalleeName(c.Common())
+				if strings.HasSuffix(n, ".LocalAddr") || strings.HasSuffix(n, ".LocalID") || strings.HasSuffix(n, "makeLocalAddr") {
+					out["local"] = true
+					return false
+				}
+			}
+			prm, ok := x.(*ssa.Parameter)
+			if !ok {
+				return true
+			}
+			if tellDst[prm] {
+				out["told-dst"] = true
+				return false
+			}
+			if depth >= 4 {
+				out["unknown"] = true
+				return false
+			}
+			fn := prm.Parent()
+			idx := -1
+			for i, q := range fn.Params {
+				if q == prm {
+					idx = i
+				}
+			}
+			sites := p.StaticCallSites(fn)
+			if len(sites) == 0 {
+				out["unknown"] = true
+			}
+			for _, cs := range sites {
+				if idx < len(cs.Common().Args) {
+					roles(cs.Common().Args[idx], depth+1, out)
+				}
+			}
+			return false
+		})
+	}
 	for _, fn := range p.ModFuncs {
 		if strings.Contains(fn.String(), "swarmtest") || strings.Contains(fn.String(), "p2ptest") {
 			continue
 		}
-		// the inbound message: a Message parameter of fn or of an enclosing literal
-		var inbound ssa.Value
-		for f := fn; f != nil && inbound == nil; f = f.Parent() {
-			for _, prm := range f.Params {
-				if isMessageType(p, prm.Type()) {
-					inbound = prm
+		for _, f := range []*ssa.Function{fn} {
+			for _, in := range core.AllInstrs(f) {
+				a, ok := in.(*ssa.Alloc)
+				if !ok || !isMessageType(p, derefType(a.Type())) {
+					continue // any local Message (composite literal or named variable) whose fields are stored
+				}
+				for _, fld := range []string{"Src", "Dst"} {
+					other := "Dst"
+					if fld == "Dst" {
+						other = "Src"
+					}
+					R := map[string]bool{}
+					nvals := 0
+					for _, v := range addrFieldValues(a, fld) {
+						if fa, isFA := v.(*ssa.FieldAddr); isFA {
+							for _, sub := range nestedStores(fa) {
+								nvals++
+								roles(sub, 0, R)
+							}
+							continue
+						}
+						nvals++
+						roles(v, 0, R)
+					}
+					if nvals == 0 {
+						continue
+					}
+					c := fmt.Sprintf("%s Message.%s", core.FnName(f), fld)
+					var rs []string
+					for k := range R {
+						rs = append(rs, k)
+					}
+					sort.Strings(rs)
+					desc := strings.Join(rs, ",")
+					switch {
+					case R[other]:
+						r.Violation("C01-ADDR-PROVENANCE", c, p.Pos(a.Pos()), "the "+fld+" of a re-wrapped message derives from the inbound message's "+other+" (origins: "+desc+"): receivers see the wrong sender/recipient")
+					case R[fld] || R["local"] || R["told-dst"]:
+						nProv++
+						r.OK("C01-ADDR-PROVENANCE", c, p.Pos(a.Pos()), "origins of "+fld+": "+desc+" (never the inbound "+other+")")
+					default:
+						r.Trivial("C01-ADDR-PROVENANCE", c, p.Pos(a.Pos()), "origins of "+fld+": "+desc+" — the address does not come from an inbound message (origination from the transport)")
+					}
 				}
 			}
 		}
-		if inbound == nil {
-			continue
-		}
-		readsField := func(v ssa.Value, name string) bool {
-			return core.DerivesFrom(v, func(x ssa.Value) bool {
-				f, base := core.FieldRead(x)
-				if f == nil || f.Name() != name {
-					return false
-				}
-				// of the inbound message (value, its spill cell, or captured)
-				return core.Through(base) == inbound || core.CellOfAddrOrLoad(base, inbound) || core.DerivesFromDirect(base, func(y ssa.Value) bool { return y == inbound })
-			})
-		}
-		for _, in := range core.AllInstrs(fn) {
-			a, ok := in.(*ssa.Alloc)
-			if !ok || !isMessageType(p, a.Type()) || a.Comment != "complit" {
+	}
+	// callers of the queue's vector entry pass (src, dst) in that order
+	if dv := h.fns["Queue.DeliverVec"]; dv != nil {
+		for _, cs := range p.StaticCallSites(dv) {
+			args := cs.Common().Args
+			if len(args) < 3 {
 				continue
 			}
-			for _, fld := range []string{"Src", "Dst"} {
-				other := "Dst"
-				if fld == "Dst" {
-					other = "Src"
-				}
-				vals := addrFieldValues(a, fld)
-				if len(vals) == 0 {
-					continue
-				}
-				nProv++
-				ok := true
-				for _, v := range vals {
-					fromOwn := readsField(v, fld)
-					fromOther := readsField(v, other)
-					if fa, isFA := v.(*ssa.FieldAddr); isFA {
-						// nested literal filled field by field: look at what is stored inside
-						fromOwn, fromOther = false, false
-						for _, sub := range nestedStores(fa) {
-							if readsField(sub, fld) {
-								fromOwn = true
-							}
-							if readsField(sub, other) {
-								fromOther = true
-							}
-						}
-					}
-					if fromOther || !fromOwn {
-						// locally known addresses are fine for Dst (s.localID / LocalAddr) but never the other field
-						if fromOther {
-							ok = false
-						} else if !localAddrOrigin(v) {
-							ok = false
-						}
-					}
-				}
-				c := fmt.Sprintf("%s Message.%s", core.FnName(fn), fld)
-				r.Check(ok, "C01-ADDR-PROVENANCE", c, p.Pos(a.Pos()), "the re-wrapped "+fld+" derives from the inbound message's "+fld+" (or a locally known address), never from its "+other, "a re-wrapped message's "+fld+" is taken from the inbound message's "+other+" (or from neither address): receivers see the wrong sender/recipient")
-			}
+			rs, rd := map[string]bool{}, map[string]bool{}
+			roles(args[1], 0, rs)
+			roles(args[2], 0, rd)
+			c := core.FnName(cs.Parent()) + " DeliverVec(src, dst)"
+			nProv++
+			r.Check(!rs["Dst"] && !rs["told-dst"] && !rd["Src"], "C01-ADDR-PROVENANCE", c, p.Pos(cs.Pos()), "the source argument is not the told destination / inbound Dst and the destination argument is not the inbound Src", "DeliverVec is called with source and destination crossed")
 		}
 	}
 	// the queue stores src into Src and dst into Dst
